@@ -799,7 +799,7 @@ func init() {
 				}
 				continue
 			}
-			if strings.Contains(r, `"__undefined"`) {
+			if strings.Contains(r, `"__undefined"`) && allBoxedAccepted(jc.v, jsCtx.ctx, true) {
 				// an accepted value was written as undefined/* cannot represent */
 				jc.detail["node"] = r
 				fail("js-undefined-value", jc.detail)
